@@ -133,12 +133,14 @@ def handleSt (st : BSt) (cmd : String) (args : List Sexp) : Option (BSt × Sexp)
     let (op, ch) ← op? opx
     let (w', r) := applyOp (selOf ch) st.w op
     let snap := match opWallet op with | some wi => snapSx (w'.wallet wi) | none => l []
-    some ({ w := w' }, l [resSx r, snap, l (w'.trace.map a), Sexp.ofNat w'.tokens.length])
+    some ({ w := w' }, l [resSx r, snap, l ((opLabels (selOf ch) st.w op).map a), Sexp.ofNat w'.tokens.length])
   | "books.crash", [opx, n] => do
     let (op, ch) ← op? opx
-    let (w', r) := applyOpN (selOf ch) st.w op (← n.asNat?)
+    let n ← n.asNat?
+    let (w', r) := applyOpN (selOf ch) st.w op n
     let snap := match opWallet op with | some wi => snapSx (w'.wallet wi) | none => l []
-    some ({ w := w' }, l [match r with | some x => resSx x | none => l [a "died"], snap, l (w'.trace.map a), Sexp.ofNat w'.tokens.length])
+    some ({ w := w' }, l [match r with | some x => resSx x | none => l [a "died"], snap,
+      l (((opLabels (selOf ch) st.w op).take n).map a), Sexp.ofNat w'.tokens.length])
   | "books.calls", [opx] => do
     let (op, ch) ← op? opx
     some (st, Sexp.ofNat (opCalls (selOf ch) st.w op))
@@ -146,7 +148,7 @@ def handleSt (st : BSt) (cmd : String) (args : List Sexp) : Option (BSt × Sexp)
     let wi := st.w.wallets.length
     let w0 : World := { st.w with wallets := st.w.wallets ++ [{ seed := ← seed.asNat?, mem := { defaultMint := ← home.asNat? } }] }
     let (w', r) := applyOp selStable w0 (.reopen wi)
-    some ({ w := w' }, l [resSx r, Sexp.ofNat wi, l (w'.trace.map a)])
+    some ({ w := w' }, l [resSx r, Sexp.ofNat wi, l ((opLabels selStable w0 (.reopen wi)).map a)])
   | "books.snap", [wi] => do some (st, snapSx (st.w.wallet (← wi.asNat?)))
   | "books.mint", [mi] => do some (st, mintSx (st.w.mint (← mi.asNat?)))
   | "books.truth", [seed] => do some (st, truthSx st.w (← seed.asNat?))
